@@ -84,11 +84,41 @@ pub fn main_campaign() -> SimCampaign {
     }
 }
 
+/// Stale cursors against retention: logs of one or two tiny segments, publish-heavy histories
+/// with bursts, persistent sessions that stay away and subscribers that do not drain, so that
+/// requests come back with cursors into evicted segments (and onto their exact boundaries)
+pub fn retention_campaign() -> SimCampaign {
+    let mut c = main_campaign();
+    c.name = "retention";
+    c.gen = GenCfg {
+        tiny_retention: true,
+        max_clients: 4,
+        w_publish: 30,
+        w_burst: 6,
+        max_burst: 60,
+        w_raw: 2,
+        w_stale: 1,
+        w_zombie: 1,
+        w_tick: 0,
+        w_shared_sub: 2,
+        w_drain: 8,
+        w_turn: 10,
+        p_retain: 5,
+        wide_strings: false,
+        ..gen()
+    };
+    c.flags.liveness_probe = false;
+    c.quick = 12000;
+    c.thorough = 240000;
+    c.nontrivial = |s, _| if s.relaxed && s.forwards > 0 { Some(format!("backlog_beyond_retention resumed={}", s.resumed_sessions > 0)) } else { None };
+    c
+}
+
 pub fn plan(_tier: Tier) -> Plan {
     Plan {
-        campaigns: vec![Box::new(crate::fuzzdec::FuzzReplay("fuzz_router_events", "router_events")), Box::new(main_campaign())],
+        campaigns: vec![Box::new(crate::fuzzdec::FuzzReplay("fuzz_router_events", "router_events")), Box::new(main_campaign()), Box::new(retention_campaign())],
         enumerators: vec![],
-        rule: "Histories over the widest alphabet: every op of the other broker properties plus packets out of place (acks with arbitrary ids, PUBREL without PUBLISH, CONNECT/CONNACK/SUBACK mid-session, SUBSCRIBE to `$x`, `$share/g/f`, `$share/` without path, empty and invalid filters, arbitrary Unicode filters, subscription id 0), PUBLISH with topics as raw bytes (invalid UTF-8, empty, multi-byte first character, wildcards), forged / stale Ready, DeviceData, Disconnect and Shadow events for live, never-registered (7, 10^6, usize::MAX) and already-removed connection ids, late events of finished connections before/after their slot is reused, PublishWill for unknown ids, meter/alert ticks with kept and dropped receivers, persistent and clean sessions, shared groups, takeover. Oracle: every router turn runs under catch_unwind (a panic is a violation); after every turn the five per-connection slabs have identical key sets and connection_map is a bijection onto them; the router reaches quiescence within 20 000 turns; afterwards a fresh subscriber and a fresh publisher are served (connect, subscribe, QoS 1 publish forwarded and acknowledged). Non-trivial: >=1 stale/forged event, malformed or unsolicited packet, multi-byte-first-character topic/filter, or a shared group losing a member — and the router survived.".into(),
+        rule: "Histories over the widest alphabet: every op of the other broker properties plus packets out of place (acks with arbitrary ids, PUBREL without PUBLISH, CONNECT/CONNACK/SUBACK mid-session, SUBSCRIBE to `$x`, `$share/g/f`, `$share/` without path, empty and invalid filters, arbitrary Unicode filters, subscription id 0), PUBLISH with topics as raw bytes (invalid UTF-8, empty, multi-byte first character, wildcards), forged / stale Ready, DeviceData, Disconnect and Shadow events for live, never-registered (7, 10^6, usize::MAX) and already-removed connection ids, late events of finished connections before/after their slot is reused, PublishWill for unknown ids, meter/alert ticks with kept and dropped receivers, persistent and clean sessions, shared groups, takeover. Oracle: every router turn runs under catch_unwind (a panic is a violation); after every turn the five per-connection slabs have identical key sets and connection_map is a bijection onto them; the router reaches quiescence within 20 000 turns; afterwards a fresh subscriber and a fresh publisher are served (connect, subscribe, QoS 1 publish forwarded and acknowledged). Non-trivial: >=1 stale/forged event, malformed or unsolicited packet, multi-byte-first-character topic/filter, or a shared group losing a member — and the router survived. Campaign retention: the same alphabet biased to publishes and bursts over logs of 1-2 segments of 1-2 KiB, so that parked, paused and resumed requests meet evicted segments and segment boundaries; non-trivial there: some subscription's unread backlog outgrew what the log is guaranteed to keep, and forwards were observed.".into(),
         assumptions: vec![
             "Router configuration (segment size >= 1024, segment count >= 1) is operator input, not client behaviour: only configurations CommitLog::new accepts are generated".into(),
             "Debug assertions are compiled out (as in a deployed broker); overflow checks are on".into(),
